@@ -29,7 +29,7 @@ Section Spec.
     | [] => []
     | e :: es' =>
         match e_kind e, e_data e with
-        | ENormal, PCmd id c => (e_index e, id, c) :: cmds_of es'
+        | ENormal, PCmd _ id c => (e_index e, id, c) :: cmds_of es'
         | _, _ => cmds_of es'
         end
     end.
@@ -69,31 +69,33 @@ Section Spec.
       in which the store saw itself as leader). *)
   (** Election safety + durable terms: a term has one leader, and a store that
       restarts has to win a later term before it is leader again.  So two
-      proposals accepted under the same term come from the same incarnation of
-      the same store. *)
+      proposals accepted for the same region (raft group) under the same term come
+      from the same incarnation of the same store.  Terms of different regions
+      are unrelated. *)
   Definition election_safe (P : list (proposal cmd)) : Prop :=
-    forall p1 p2, In p1 P -> In p2 P -> pr_term p1 = pr_term p2 ->
+    forall p1 p2, In p1 P -> In p2 P -> pr_region p1 = pr_region p2 -> pr_term p1 = pr_term p2 ->
                   pr_store p1 = pr_store p2 /\ pr_inc p1 = pr_inc p2.
   (** Validity: raft delivers only entries that some ProposeCommand created:
       the id and the command of a delivered command entry are those of a
       registered proposal. *)
   Definition entries_valid (tr : list (gevent cmd)) : Prop :=
-    forall s es id c e, In (GDeliver s es) tr -> In e es -> e_data e = PCmd id c ->
-      exists pr, In pr (g_props (grun applier init_sm nid tr)) /\ pr_id pr = id /\ pr_cmd pr = c.
+    forall s es region id c e, In (GDeliver s es) tr -> In e es -> e_data e = PCmd region id c ->
+      exists pr, In pr (g_props (grun applier init_sm nid tr)) /\
+                 pr_region pr = region /\ pr_id pr = id /\ pr_cmd pr = c.
   (** Ranges: terms and the number of calls stay below 2^32 (the id packs a
       term and a counter into 64 bits). *)
   Definition calls_of (tr : list (gevent cmd)) : N :=
-    N.of_nat (length (filter (fun e => match e with GPropose _ _ _ _ | GRead _ _ _ => true | _ => false end) tr)).
+    N.of_nat (length (filter (fun e => match e with GPropose _ _ _ _ _ | GRead _ _ _ => true | _ => false end) tr)).
   Definition terms_ok (P : list (proposal cmd)) : Prop := forall p, In p P -> 0 < pr_term p < 2^32.
   Definition calls_small (tr : list (gevent cmd)) : Prop := calls_of tr < 2^32 - 1.
 
   (** *** The property: whoever is handed a result registered a proposal on
-      that store under the id of the entry that produced the result, and that
+      that store, for the region and under the id of the entry that produced the result, and that
       entry carries the command of this very proposal. *)
   Definition response_matches (g : gstate cmd resp sm) : Prop :=
     forall s k, In k (completions g s) ->
       exists pr, In pr (g_props g) /\ pr_w pr = k_w k /\ pr_store pr = s /\
-                 pr_id pr = ap_reqid (k_by k) /\ pr_cmd pr = ap_cmd (k_by k).
+                 pr_region pr = ap_region (k_by k) /\ pr_id pr = ap_reqid (k_by k) /\ pr_cmd pr = ap_cmd (k_by k).
 
   (** ** C23, reads. [committed]: the one committed sequence (log matching).
       A read served at a store that has executed the first [n] entries
@@ -142,41 +144,40 @@ Inductive pobs := PoNotLeader | PoRegistered (id : N) | PoStarted | PoDropped | 
 Inductive robs := RoOk (uid : N) (v : option N) | RoNotLeader | RoErr.
 Inductive oev :=
 | OStart (s : N)                                                (* store s restarted from its directory *)
-| OPropose (s w : N) (c : rcmd) (leader : bool) (term : N) (o : pobs)  (* ProposeCommand called; status seen just before *)
-| ORead (s w : N) (c : rcmd) (leader : bool) (term : N) (o : pobs)     (* ReadCommand called *)
-| OApply (s index term reqid : N) (c : rcmd) (r : option rresp) (* apply observer hook *)
-| OServe (s w ridx mark : N)                                    (* read observer hook: read index, applyMark.DoneUntil *)
+| OPropose (s region w : N) (c : rcmd) (leader : bool) (term : N) (o : pobs)  (* ProposeCommand called; status seen just before *)
+| ORead (s region w : N) (c : rcmd) (leader : bool) (term : N) (o : pobs)     (* ReadCommand called *)
+| OApply (s region index term reqid : N) (c : rcmd) (r : option rresp) (* apply observer hook *)
+| OServe (s region w ridx mark : N)                             (* read observer hook: read index, applyMark.DoneUntil of the region's peer *)
 | OExec (s w : N) (r : option rresp)                            (* the applier ran for a ReadCommand *)
 | ORet (w : N) (o : robs).                                      (* the client call returned *)
 
-Definition applies (evs : list oev) : list (N * N * N * rcmd) :=
-  flat_map (fun e => match e with OApply s i _ id c _ => [(s, i, id, c)] | _ => [] end) evs.
+Definition applies (evs : list oev) : list (N * N * N * N * rcmd) :=
+  flat_map (fun e => match e with OApply s g i _ id c _ => [(s, g, i, id, c)] | _ => [] end) evs.
 
-(** C22 (a): all stores agree on what sits at an index (observed log matching). *)
+(** C22 (a): all stores agree on what sits at an index of a region's log (observed log matching). *)
 Definition agree (evs : list oev) : Prop :=
-  forall s i id c s' id' c', In (s, i, id, c) (applies evs) -> In (s', i, id', c') (applies evs) ->
-                             id = id' /\ rcmd_eqb c c' = true.
+  forall s g i id c s' id' c', In (s, g, i, id, c) (applies evs) -> In (s', g, i, id', c') (applies evs) ->
+                               id = id' /\ rcmd_eqb c c' = true.
 Definition agree_b (evs : list oev) : bool :=
   forallb (fun x => forallb (fun y =>
      match x, y with
-     | (_, i, id, c), (_, i', id', c') => negb (i =? i') || ((id =? id') && rcmd_eqb c c')
+     | (_, g, i, id, c), (_, g', i', id', c') => negb ((g =? g') && (i =? i')) || ((id =? id') && rcmd_eqb c c')
      end) (applies evs)) (applies evs).
 
-(** C22 (b): within one incarnation of a store the applied indices increase
-    strictly and skip no index at which any store applied a command. *)
-Fixpoint segments (evs : list oev) (cur : list (N * list N)) : list (list N) :=
-  (* per store: indices applied in the current incarnation, newest first *)
+(** C22 (b): within one incarnation of a store the indices applied for a region
+    increase strictly and skip no index at which any store applied a command
+    of that region. *)
+Definition skey (s g : N) : N := s * 2^32 + g.
+Fixpoint segments (evs : list oev) (cur : list (N * (N * list N))) : list (N * list N) :=
+  (* per (store, region): region and indices applied in the current incarnation, newest first *)
   match evs with
   | [] => map snd cur
   | OStart s :: evs' =>
-      match find (fun x => fst x =? s) cur with
-      | Some (_, l) => l :: segments evs' (filter (fun x => negb (fst x =? s)) cur)
-      | None => segments evs' cur
-      end
-  | OApply s i _ _ _ _ :: evs' =>
-      match find (fun x => fst x =? s) cur with
-      | Some (_, l) => segments evs' ((s, i :: l) :: filter (fun x => negb (fst x =? s)) cur)
-      | None => segments evs' ((s, [i]) :: cur)
+      map snd (filter (fun x => fst x / 2^32 =? s) cur) ++ segments evs' (filter (fun x => negb (fst x / 2^32 =? s)) cur)
+  | OApply s g i _ _ _ _ :: evs' =>
+      match find (fun x => fst x =? skey s g) cur with
+      | Some (_, (_, l)) => segments evs' ((skey s g, (g, i :: l)) :: filter (fun x => negb (fst x =? skey s g)) cur)
+      | None => segments evs' ((skey s g, (g, [i])) :: cur)
       end
   | _ :: evs' => segments evs' cur
   end.
@@ -192,17 +193,18 @@ Definition no_skip_b (all : list N) (seg : list N) : bool :=
                forallb (fun i => negb ((lo <? i) && (i <? hi)) || existsb (N.eqb i) seg) all
   end.
 Definition in_order_b (evs : list oev) : bool :=
-  let all := map (fun x => snd (fst (fst x))) (applies evs) in
-  forallb (fun seg => decreasing seg && no_skip_b all seg) (segments evs []).
+  forallb (fun gs =>
+     let all := flat_map (fun x => match x with (_, g, i, _, _) => if g =? fst gs then [i] else [] end) (applies evs) in
+     decreasing (snd gs) && no_skip_b all (snd gs)) (segments evs []).
 
 (** C22 (c): a proposal answered with success got the answer its own command
     produced on the store it was sent to, and that command sits at exactly
     one index of the log; a proposal answered NotLeader was never applied. *)
 Definition indices_of (evs : list oev) (uid : N) : list N :=
-  nodup N.eq_dec (flat_map (fun x => match x with (_, i, _, c) => if c_uid c =? uid then [i] else [] end) (applies evs)).
+  nodup N.eq_dec (flat_map (fun x => match x with (_, g, i, _, c) => if c_uid c =? uid then [g * 2^40 + i] else [] end) (applies evs)).
 Definition answer_seen (evs : list oev) (s uid : N) (v : option N) : bool :=
   existsb (fun e => match e with
-                    | OApply s' _ _ _ c (Some (u, v')) => (s' =? s) && (c_uid c =? uid) && (u =? uid) && on_eqb v v'
+                    | OApply s' _ _ _ _ c (Some (u, v')) => (s' =? s) && (c_uid c =? uid) && (u =? uid) && on_eqb v v'
                     | _ => false
                     end) evs.
 Definition ret_of (evs : list oev) (w : N) : option robs :=
@@ -212,7 +214,7 @@ Definition ret_of (evs : list oev) (w : N) : option robs :=
   end.
 Definition answers_b (evs : list oev) : bool :=
   forallb (fun e => match e with
-                    | OPropose s w c _ _ _ =>
+                    | OPropose s _ w c _ _ _ =>
                         match ret_of evs w with
                         | Some (RoOk uid v) =>
                             (uid =? c_uid c) && (N.of_nat (length (indices_of evs (c_uid c))) =? 1) &&
@@ -228,7 +230,7 @@ Definition c22_ok (evs : list oev) : bool := agree_b evs && in_order_b evs && an
 (** C23 (a): a store whose raft status is not leader answers NotLeader. *)
 Definition not_leader_b (evs : list oev) : bool :=
   forallb (fun e => match e with
-                    | OPropose _ w _ false _ _ | ORead _ w _ false _ _ =>
+                    | OPropose _ _ w _ false _ _ | ORead _ _ w _ false _ _ =>
                         match ret_of evs w with Some RoNotLeader => true | _ => false end
                     | _ => true
                     end) evs.
@@ -251,7 +253,7 @@ Fixpoint history_from (all evs : list oev) (i : N) : list lop :=
   | e :: evs' =>
       let rest := history_from all evs' (i + 1) in
       match e with
-      | OPropose _ w c true _ _ | ORead _ w c true _ _ =>
+      | OPropose _ _ w c true _ _ | ORead _ _ w c true _ _ =>
           match c_op c, ret_pos all w 0 with
           | RPut k v, Some (j, RoOk _ _) =>
               {| l_tid := w; l_call := i; l_ret := j; l_kind := LWrite (kbytes k) (Some (vbytes v)) true |} :: rest
